@@ -356,11 +356,28 @@ pub fn sweep_streams(rng: &mut Rng, bases: usize, window: usize) -> Vec<(String,
         crafted.extend_from_slice(&tail);
         let configs: [(i32, i32); 8] = [(4, 8), (5, 8), (6, 8), (9, 8), (5, 1), (6, 1), (8, 1), (3, 1)];
         let (level, mem) = configs[b % configs.len()];
-        let text = if b % 2 == 0 { crafted } else { text };
+        // a second end game: the last three bytes occur twice, far back (beyond the distance
+        // at which a 3 byte match is still used), so that the match search at the very end
+        // sees two unusable 3 byte candidates with exactly 3 bytes of input left
+        let mut far3 = vec![1u8, 2, 3];
+        far3.extend_from_slice(&text[..text.len().min(200)]);
+        far3.extend_from_slice(&[1, 2, 3]);
+        while far3.len() < 4800 + (b % 3) * 700 {
+            far3.extend_from_slice(&text);
+        }
+        far3.extend_from_slice(&[1, 2, 3]);
+        let text = if b % 2 == 0 { crafted } else if b % 4 == 1 { far3 } else { text };
         // move the end of input ...
         for cut in 0..window.min(text.len() - 4) {
             let p = &text[..text.len() - cut];
             v.push((format!("sweep{}/zlib:l{}:m{}/cut{}", b, level, mem, cut), zlib_raw(p, level, 0, 15, mem)));
+            // ... under the other compressors as well (other hash functions, other end games)
+            match (b + cut) % 6 {
+                0 => v.push((format!("sweep{}/libdeflate:l{}/cut{}", b, 1 + (b % 9), cut), libdeflate_raw(p, 1 + (b % 9) as i32))),
+                2 => v.push((format!("sweep{}/zlibng:l{}/cut{}", b, 1 + (b % 6), cut), zlibng_raw(p, 1 + (b % 6) as i32))),
+                4 => v.push((format!("sweep{}/miniz:l{}/cut{}", b, 1 + (b % 9), cut), miniz_raw(p, 1 + (b % 9) as u8))),
+                _ => {}
+            }
         }
         // ... and the block boundaries (blocks close after a fixed number of tokens, so a
         // prefix of unique literals shifts every boundary against the matches)
